@@ -70,6 +70,8 @@ type Req struct {
 	KPatch  string `json:"kpatch,omitempty"`
 	Metrics string `json:"metrics,omitempty"`
 	Conv    string `json:"conv,omitempty"`
+	// class Size (size.go): File "sized" = a valid response whose content is described by Size
+	Size *SizeSpec `json:"size,omitempty"`
 }
 
 type Input struct {
@@ -85,6 +87,8 @@ type Input struct {
 	// Ctx: the hook processes read their binding context before they answer, and what they read is
 	// observed (ctx.go); the bindings may carry `group` / `includeSnapshotsFrom`
 	Ctx bool `json:"ctx,omitempty"`
+	// Sized: the whole content of every answer is observed (size.go)
+	Sized bool `json:"sized,omitempty"`
 }
 
 type Reg struct {
@@ -108,6 +112,10 @@ type Review struct {
 	Patch     int    `json:"patch,omitempty"`
 	PatchType bool   `json:"patch_type,omitempty"`
 	Raw       string `json:"raw,omitempty"`
+	// class Size: the whole content of the answer - every warning, the decoded patch bytes, the message
+	WarnB  []string `json:"warn_b,omitempty"`
+	PatchB []byte   `json:"patch_b,omitempty"`
+	MsgB   string   `json:"msg_b,omitempty"`
 }
 type ReqObs struct {
 	Path   string  `json:"path"`
@@ -125,6 +133,8 @@ type ReqObs struct {
 	Paths   []string `json:"paths,omitempty"`
 	// class Ctx: what the hook process read in $BINDING_CONTEXT_PATH
 	Shown *Shown `json:"shown,omitempty"`
+	// class Size: the log step on its own (size.go)
+	Dump *DumpObs `json:"dump,omitempty"`
 }
 type Obs struct {
 	Regs []Reg    `json:"regs"`
@@ -220,6 +230,11 @@ func fileBytes(q Req) string {
 	switch q.File {
 	case "empty":
 		return ""
+	case "sized":
+		if q.Size == nil {
+			return ""
+		}
+		return q.Size.fileText()
 	case "allow":
 		return full(true)
 	case "deny":
@@ -650,6 +665,12 @@ func Run(in Input) (o Obs) {
 			rec := httptest.NewRecorder()
 			router.ServeHTTP(rec, env.request(q, ro.Path))
 			parseAnswer(rec, &ro)
+			if in.Sized {
+				sizedAnswer(rec, &ro)
+				if q.File == "sized" && q.Size != nil && len(q.Size.Warn) <= 12 {
+					ro.Dump = dumpStep(fileBytes(q))
+				}
+			}
 			readRan(state, q, &ro)
 			if in.Ctx {
 				readShown(state, &ro)
@@ -895,6 +916,9 @@ func Render(in Input, obs *Obs, crash string) core.Case {
 	}
 	if in.Ctx {
 		return renderCtx(in, obs, c)
+	}
+	if in.Sized {
+		return renderSize(in, obs, c)
 	}
 	hooks := core.CoqList(in.Hooks, func(h HookSpec) string {
 		return fmt.Sprintf("mkHook %s %s", core.CoqList(h.Val, core.CoqBytes), core.CoqList(h.Mut, core.CoqBytes))
@@ -1373,11 +1397,13 @@ func Gen(r *core.Rng, tier string) ([]core.In[Input], bool) {
 	ins = append(ins, genConc(g, tier)...)
 	// bindings with group / includeSnapshotsFrom, hooks that read their context (ctx.go)
 	ins = append(ins, genCtx(g, tier)...)
+	// the size of what the hook answers: many / long warnings, long messages, long patches (size.go)
+	ins = append(ins, genSize(g, tier)...)
 	return ins, false
 }
 
 var Driver = core.Driver[Input, Obs]{
-	Spec: core.Spec{Property: "C14", Imports: []string{"C14_Model", "C14_Spec", "C14_CtxModel", "C14_Corr"}, Corr: "C14_Corr", Triggers: nil, ShrinkKey: "reqs",
-		Rule: "one case = 1-3 real hooks (bash stubs) with kubernetesValidating/kubernetesMutating bindings loaded by the real hook.Manager, the real initValidatingWebhookManager event handler on the real admission router (httptest, no listener), and a list of AdmissionReview posts, each with a scripted hook exit status, response file and the other files shell-operator processes after the exit of the hook process ($KUBERNETES_PATCH_PATH on a fake cluster, $METRICS_PATH, $CONVERSION_RESPONSE_PATH: empty / processed without error / failing the run at parse time / failing it when applied); observed: marker Kubernetes object applied, marker metric applied, registered path of every binding, HTTP status / AdmissionResponse (uid, allowed, code, message, warnings, patch, patchType), which hook process ran for which binding. Streams: corpus; exhaustive (every tier): 12 path kinds {registered validating, registered mutating, unknown webhook id, unknown configuration id, empty, extra segment, doubled slashes, trailing slash, configuration only, id only, un-normalised name} x exit {0,1} x 28 response files {empty, allow, deny(+message), allow+warnings, allow+patch, all fields, truncated x2, wrong types x6, non-JSON x2, null, {}, unknown members, empty patch, object followed by other data x5, object followed by white space} + every request-less / malformed body / wrong content type; random (distinct webhook ids); colliding-ids (binding names with equal SafeURLString); trailing-data (a complete response object followed by other data — the repaired defect F19); exhaustive-post-exit (every tier): every variant of the three side files alone (19 Kubernetes-operation files, 20 metric files, 6 conversion responses) + 12 combinations showing the order of the steps x 8 (exit, response file) on a validating binding, x 2 (allow with patch and warnings, deny) on a mutating one; post-exit-failure (every 4th random case: exit 0 + valid verdict + a failing step after the exit); a third of all random requests carry side files. CONCURRENT class (conc.go): 2-6 reviews posted to the router from goroutines of their own, their scripted hook processes held on FIFOs at two points (started / has written its files) and moved on in the order of the case's schedule, every request observed as above plus what its hook process found in its output files at start; streams concurrent-exhaustive-pairs (every tier: all 20 orders of {A starts, A writes, A ends, B starts, B writes, B ends} x pairs of runs differing in verdict, message, warnings, patch, exit status and in the other files they hand back, on one binding / a validating and a mutating binding of one hook / two hooks: 5 pairs quick, 11 thorough) and concurrent-random (1-3 hooks, 2-6 requests of every kind incl. unknown paths, malformed bodies, failing exits, side files; random interleaving, sometimes cut short; two thirds biased to several requests for one binding). CTX class (ctx.go): hooks whose kubernetesValidating / kubernetesMutating bindings carry the further documented parameters `group` (a group that names nothing, or one that has `kubernetes` bindings of the hook as members) and `includeSnapshotsFrom`, with 0-3 `kubernetes` bindings beside them (which never fire: no monitor is started); the hook process READS $BINDING_CONTEXT_PATH before it answers - it gives the scripted verdict only when it is shown an admission request (type Validating / Mutating, review.request.uid of this request), otherwise it denies with message 99; observed per request, beside everything above, WHAT THE HOOK READ field by field (binding, type, keys of snapshots, groupName, review.request.uid; the harness expects nothing about them) - compared with C14_CtxModel.ctx_request (HandleEvent with the parameters of the binding that owns the link, the group merge of the loader, UpdateSnapshots, MapV1 statement by statement; snapshot keys as a set) and judged by C14_CtxSpec.P_ctx = C14_Spec.P + handed (the hook that ran read THE REQUEST under the type and name of its binding, never as a group) + snapshots_sound. Streams ctx-corpus (plain + grouped + including bindings of one hook; two bindings with one webhook id and different parameters), ctx-exhaustive (every tier: 10 kinds of parameters {none, group naming nothing, group with members, includeSnapshotsFrom one / two, both, include of a member, ...} x hook with / without kubernetes bindings x validating / mutating, each with allow, deny+message, allow+warnings(+patch), exit 1, empty response, unknown path, and requests to a binding without parameters of the same hook and of another hook), ctx-random (40 quick / 1000 thorough: random hooks as in the random stream incl. colliding ids, group 55%, includeSnapshotsFrom 35%). Tags class:ctx, served-by:<binding-with-group|...>, ctx-type:<type read>, ctx-snapshots:<n|absent>. non-trivial = at least 2 requests, one answered allowed and one hook run (concurrent class: at least two hook processes open at the same time; ctx class: one answered allowed and one run served by a binding with parameters). distinct = distinct input text"},
+	Spec: core.Spec{Property: "C14", Imports: []string{"C14_Model", "C14_Spec", "C14_CtxModel", "C14_SizeModel", "C14_Corr"}, Corr: "C14_Corr", Triggers: nil, ShrinkKey: "reqs",
+		Rule: "one case = 1-3 real hooks (bash stubs) with kubernetesValidating/kubernetesMutating bindings loaded by the real hook.Manager, the real initValidatingWebhookManager event handler on the real admission router (httptest, no listener), and a list of AdmissionReview posts, each with a scripted hook exit status, response file and the other files shell-operator processes after the exit of the hook process ($KUBERNETES_PATCH_PATH on a fake cluster, $METRICS_PATH, $CONVERSION_RESPONSE_PATH: empty / processed without error / failing the run at parse time / failing it when applied); observed: marker Kubernetes object applied, marker metric applied, registered path of every binding, HTTP status / AdmissionResponse (uid, allowed, code, message, warnings, patch, patchType), which hook process ran for which binding. Streams: corpus; exhaustive (every tier): 12 path kinds {registered validating, registered mutating, unknown webhook id, unknown configuration id, empty, extra segment, doubled slashes, trailing slash, configuration only, id only, un-normalised name} x exit {0,1} x 28 response files {empty, allow, deny(+message), allow+warnings, allow+patch, all fields, truncated x2, wrong types x6, non-JSON x2, null, {}, unknown members, empty patch, object followed by other data x5, object followed by white space} + every request-less / malformed body / wrong content type; random (distinct webhook ids); colliding-ids (binding names with equal SafeURLString); trailing-data (a complete response object followed by other data — the repaired defect F19); exhaustive-post-exit (every tier): every variant of the three side files alone (19 Kubernetes-operation files, 20 metric files, 6 conversion responses) + 12 combinations showing the order of the steps x 8 (exit, response file) on a validating binding, x 2 (allow with patch and warnings, deny) on a mutating one; post-exit-failure (every 4th random case: exit 0 + valid verdict + a failing step after the exit); a third of all random requests carry side files. CONCURRENT class (conc.go): 2-6 reviews posted to the router from goroutines of their own, their scripted hook processes held on FIFOs at two points (started / has written its files) and moved on in the order of the case's schedule, every request observed as above plus what its hook process found in its output files at start; streams concurrent-exhaustive-pairs (every tier: all 20 orders of {A starts, A writes, A ends, B starts, B writes, B ends} x pairs of runs differing in verdict, message, warnings, patch, exit status and in the other files they hand back, on one binding / a validating and a mutating binding of one hook / two hooks: 5 pairs quick, 11 thorough) and concurrent-random (1-3 hooks, 2-6 requests of every kind incl. unknown paths, malformed bodies, failing exits, side files; random interleaving, sometimes cut short; two thirds biased to several requests for one binding). CTX class (ctx.go): hooks whose kubernetesValidating / kubernetesMutating bindings carry the further documented parameters `group` (a group that names nothing, or one that has `kubernetes` bindings of the hook as members) and `includeSnapshotsFrom`, with 0-3 `kubernetes` bindings beside them (which never fire: no monitor is started); the hook process READS $BINDING_CONTEXT_PATH before it answers - it gives the scripted verdict only when it is shown an admission request (type Validating / Mutating, review.request.uid of this request), otherwise it denies with message 99; observed per request, beside everything above, WHAT THE HOOK READ field by field (binding, type, keys of snapshots, groupName, review.request.uid; the harness expects nothing about them) - compared with C14_CtxModel.ctx_request (HandleEvent with the parameters of the binding that owns the link, the group merge of the loader, UpdateSnapshots, MapV1 statement by statement; snapshot keys as a set) and judged by C14_CtxSpec.P_ctx = C14_Spec.P + handed (the hook that ran read THE REQUEST under the type and name of its binding, never as a group) + snapshots_sound. Streams ctx-corpus (plain + grouped + including bindings of one hook; two bindings with one webhook id and different parameters), ctx-exhaustive (every tier: 10 kinds of parameters {none, group naming nothing, group with members, includeSnapshotsFrom one / two, both, include of a member, ...} x hook with / without kubernetes bindings x validating / mutating, each with allow, deny+message, allow+warnings(+patch), exit 1, empty response, unknown path, and requests to a binding without parameters of the same hook and of another hook), ctx-random (40 quick / 1000 thorough: random hooks as in the random stream incl. colliding ids, group 55%, includeSnapshotsFrom 35%). Tags class:ctx, served-by:<binding-with-group|...>, ctx-type:<type read>, ctx-snapshots:<n|absent>. SIZE class (size.go): the scripted hooks write raw JSON responses of any size - 0..100+ warnings of 0..64 KiB each (one repeated byte, a 7-byte cycle, characters JSON escapes, two-byte UTF-8), messages of such lengths, JSONPatch documents of 60 bytes..64 KiB (base64 in the file) whose bulk is one string value / one key / many small operations; the WHOLE answer is observed (every warning, the decoded patch bytes, the message text, patchType) and compared in full with C14_SizeModel.size_review (identity on the parsed content; the log step Response.Dump() of handleRunHook is a step of the model), for responses with at most 12 warnings the log step is also run on its own (real ResponseFromBytes on the file, real Dump() on the result) and its text and the Response afterwards are compared with C14_SizeModel.dump_step; judged by C14_SizeSpec.P_size = C14_Spec.P on the content-forgotten observation + relay_full (warnings element for element in order, patch byte for byte on mutating bindings, message of a denial) + nothing_invented. Byte strings travel compactly (chunks (n, pattern)) and are expanded in Coq before comparing. Streams size-exhaustive (every tier: number of warnings {0,1,4,5,6,7,9,20,100} on a validating and a mutating binding; string lengths {0,1,2,254..257,1023..1025,4096} x 4 kinds of content (the two rarer kinds: every other length) for warnings and messages; patch lengths {100,1000,1020..1027,1100,2047..2049,4095..4097} x 3 shapes (many-operations shape: x 2 offsets of the boundaries); 64 KiB patch / key / message / warning; products of {5,6,9 warnings} x {1,256,4096 bytes} x {1024,1025,2048 patch bytes}, the shapes in turn; each with a failing hook, an empty and a malformed file, an unknown path), size-random (40 quick / 400 thorough: random hooks, 1-5 requests, lengths biased to 0-8, 250-261, 1016-1031, powers of two +-2; interleaved with the systematic cases). Tags class:size, warnings:<bucket>, warning-len:/message-len:/patch-len:<bucket>, patch-shape:. non-trivial (size class) = one answer allowed and one response with more than 5 warnings or more than 1024 bytes of patch or message. non-trivial = at least 2 requests, one answered allowed and one hook run (concurrent class: at least two hook processes open at the same time; ctx class: one answered allowed and one run served by a binding with parameters). distinct = distinct input text"},
 	Gen: Gen, Run: Run, Render: Render, PerShard: 30, Workers: 8, CaseTimout: 300 * time.Second,
 }
